@@ -387,6 +387,7 @@ func run(c *Case) (string, string) {
 		return view
 	}
 	view0 := viewOf()
+	succeeded := 0 // calls that had to succeed (and, having got past the checks below, did)
 	for call := 1; call <= c.Calls; call++ {
 		if call > 1 && c.Reopen && dir != "" {
 			r, err := open()
@@ -449,6 +450,7 @@ func run(c *Case) (string, string) {
 			}
 			continue
 		}
+		succeeded++
 		if err != nil {
 			if call == 1 {
 				return "C11:legal-sign-failed:" + site, fmt.Sprintf("first signing call failed: %v", err)
@@ -547,6 +549,22 @@ func run(c *Case) (string, string) {
 			_ = sigDesc
 		}
 	}
+	if dir != "" && succeeded > 0 {
+		// "attaches it to that resolved artifact": what was attached is there for whoever opens the
+		// layout next (a later process), not only for the handle that signed
+		fresh, err := open()
+		if err != nil {
+			return "C11:layout-unusable-after-sign:" + site, fmt.Sprintf("opening the layout after the last call failed: %v", err)
+		}
+		d, err := fresh.Resolve(ctx, "v1")
+		if err != nil {
+			return "C11:layout-unusable-after-sign:" + site, fmt.Sprintf("resolving the artifact through a fresh handle failed: %v", err)
+		}
+		n := 0
+		if err := fresh.ListSignatures(ctx, d, func(ds []ocispec.Descriptor) error { n += len(ds); return nil }); err != nil || n != succeeded {
+			return "C11:attached-signatures-not-visible-through-a-fresh-handle:" + site, fmt.Sprintf("%d successful SignOCI calls; a handle opened afterwards lists %d signatures of the artifact (err %v)", succeeded, n, err)
+		}
+	}
 	return "", ""
 }
 
@@ -588,7 +606,7 @@ func TestC11_Sequences(t *testing.T) {
 		case "colliding":
 			c.Metadata = map[string]string{"env": rp.Pick(rt, "collideValue", "prod", "other"), "build": "42"}
 		case "reserved":
-			c.Metadata = map[string]string{rp.Pick(rt, "reservedKey", "io.cncf.notary.x", "io.cncf.notary", "io.cncf.notary.x509chain.thumbprint#S256"): "v", "build": "42"}
+			c.Metadata = map[string]string{rp.Pick(rt, "reservedKey", "io.cncf.notary.x", "io.cncf.notary", "io.cncf.notary.x509chain.thumbprint#S256", "io.cncf.notary-verified", "io.cncf.notaryproject.ok", "io.cncf.notary#S256", "io.cncf.notary/x", "io.cncf.notary "): "v", "build": "42"}
 		}
 		c.Ref = rp.Pick(rt, "ref", "tag", "tag", "digest", "full-tag", "full-digest", "digest-elsewhere")
 		c.SignerAnn = rp.Pick(rt, "signerAnnotations", "", "", "disjoint", "clashing", "clashing")
